@@ -25,6 +25,7 @@ import time
 from props import purelib
 from props import c04hist
 from props import c04obo
+from props import c04chan
 
 DOM = 7           # low, hi in 0..6 for the exhaustive part
 ALL = [(l, h) for l in range(DOM) for h in range(DOM)]
@@ -336,6 +337,26 @@ TRUSTED3 = [
 def run(ctx):
     if ctx.replay:
         rp = json.load(open(ctx.replay))
+        if isinstance(rp.get("replay"), dict) and rp["replay"].get("part") == "chan":
+            # a replay of the channel part: one fan-out scenario with history / deletion-log queries
+            ctx.coq_props()
+            import vlib
+            vlib.proof_violation(ctx)
+            ok, out = ctx.build_runner()
+            if not ok:
+                ctx.violation("proof", "extraction-broken", "model extraction/runner build failed: " + out[-1500:],
+                              {"theorem_or_obligation": "extraction of the model"})
+                ctx.finish()
+            ok, out = ctx.build_main()
+            if not ok:
+                ctx.violation("corr", "harness-build-broken", "package-main driver no longer builds against /repo: " + out[-1500:],
+                              {"correspondence": "build of harness/overlay against /repo/server"})
+                ctx.finish()
+            cov = c04chan.run_chan(ctx)
+            ctx.coverage.update(cov)
+            ctx.coverage["rule"] = c04chan.RULE4
+            ctx.coverage["trusted_base"] = c04chan.TRUSTED4
+            ctx.finish()
         if isinstance(rp.get("replay"), dict) and "head" in rp["replay"]:
             # a layer-2 replay: one history
             ctx.coq_props()
@@ -385,6 +406,7 @@ def run(ctx):
     cov3 = c04obo.run_obo(ctx) if cov2 else {}
     if cov3:
         cov3["wall_s"] = round(time.time() - t2, 1)
+    cov4 = c04chan.run_chan(ctx) if cov3 else {}
     if cov2:
         cov2["wall_s"] = round(t2 - t1, 1)
         ctx.coverage["layer1"] = {k: l1[k] for k in ("evaluations", "distinct_nontrivial", "rule", "samples", "traces_validated_against_impl",
@@ -405,6 +427,12 @@ def run(ctx):
                 ctx.coverage[k] = ctx.coverage.get(k, 0) + cov3.get(k, 0)
             ctx.coverage["rule"] += " || " + RULE3
             ctx.coverage["trusted_base"] = ctx.coverage["trusted_base"] + TRUSTED3
+        if cov4:
+            ctx.coverage["layer2_chan"] = dict(cov4, rule=c04chan.RULE4)
+            for k in ("evaluations", "distinct_nontrivial", "traces_validated_against_impl", "correspondence_mismatches", "monitor_failures"):
+                ctx.coverage[k] = ctx.coverage.get(k, 0) + cov4.get(k, 0)
+            ctx.coverage["rule"] += " || " + c04chan.RULE4
+            ctx.coverage["trusted_base"] = ctx.coverage["trusted_base"] + c04chan.TRUSTED4
     ctx.finish()
 
 
